@@ -161,11 +161,22 @@ impl fmt::Display for CompoundVariable {
             .iter()
             .map(|i| match i {
                 PreExp::Primitive(p) => match p.value() {
-                    Primitive::Number(n) => n.to_string(),
                     Primitive::PositiveInteger(n) => n.to_string(),
-                    Primitive::Integer(n) => n.to_string(),
+                    Primitive::Integer(n) if *n >= 0 => n.to_string(),
+                    //an integral decimal is written like everywhere else, as the integer
+                    Primitive::Number(n) if n.fract() == 0.0 && *n >= 0.0 && *n < 9223372036854775808.0 => {
+                        n.to_string()
+                    }
                     //literal name fragments such as the _2 in set_A__2
-                    Primitive::String(s) => s.clone(),
+                    Primitive::String(s)
+                        if s.starts_with('_')
+                            && !s.trim_start_matches('_').is_empty()
+                            && s.trim_start_matches('_').chars().all(|c| c.is_alphanumeric()) =>
+                    {
+                        s.clone()
+                    }
+                    //a decimal or a string written bare would not be read back as the same
+                    //index: x_1.5 is refused, x_a is the variable a
                     _ => format!("{{{}}}", i),
                 },
                 PreExp::Variable(name) => name.value().clone(),
